@@ -187,7 +187,7 @@ var methods = []string{"GET", "HEAD", "POST", "PUT", "DELETE"}
 
 func TestEndpoints(t *testing.T) {
 	openDebug := map[string]bool{}
-	evid.Check(t, 12, 60, func(t *rapid.T) {
+	evid.Check(t, 10, 45, func(t *rapid.T) {
 		spec := vhttp.Spec{
 			Storage: rapid.SampledFrom(vhttp.Storages).Draw(t, "storage"),
 			Index:   rapid.SampledFrom(vhttp.Indexes).Draw(t, "index"),
@@ -453,8 +453,10 @@ func TestEndpoints(t *testing.T) {
 					n2xx++
 					evid.R.Label("endpoint/2xx-with-credentials/" + nz(typ, "root-or-other"))
 					if !publicOK(r, res) && !strings.HasPrefix(u.Path, "/share/") {
-						for _, wc := range wrong {
-							evid.R.NonTrivial(evid.Hash("endpoint", cfgName, r.method, r.sym, wc.class))
+						// one distinct case per (configuration, auth kind, method, path); every one of
+						// them was refused above under each of the len(wrong) credential classes
+						if evid.R.NonTrivial(evid.Hash("endpoint", cfgName, r.method, r.sym)) {
+							evid.R.LabelN("endpoint/protected-requests-x-credential-classes", len(wrong))
 						}
 					}
 				}
@@ -501,6 +503,7 @@ func TestEndpoints(t *testing.T) {
 	}
 	sort.Strings(od)
 	evid.R.Extra("debug_endpoints_open", od)
+	evid.R.Extra("servers_left_open_because_sync_queue_did_not_drain", vhttp.Leaked.Load())
 }
 
 func nz(s, d string) string {
